@@ -200,12 +200,14 @@ def vo_closure(vfile):
         if not os.path.exists(p):
             continue
         txt = open(p).read()
-        for m in re.finditer(r"From\s+SA\s+Require\s+(?:Import|Export)?\s*([^.]*(?:\.[A-Za-z_][^.\s]*)*)\s*\.", txt):
-            pass
-        for m in re.finditer(r"From\s+SA\s+Require\s+(?:Import\s+|Export\s+)?((?:[A-Za-z_0-9.]+\s*)+)\.\s", txt):
-            for mod in m.group(1).split():
-                mod = mod.rstrip(".")
-                todo.append(mod.replace(".", os.sep) + ".v")
+        for sent in re.split(r"\.\s", txt):
+            m = re.match(r"\s*From\s+SA((?:\.[A-Za-z_0-9]+)*)\s+Require\s+(?:Import\s+|Export\s+)?(.*)$", sent.strip(), re.S)
+            if not m:
+                continue
+            pre = m.group(1).lstrip(".")
+            for mod in m.group(2).split():
+                full = (pre + "." + mod) if pre else mod
+                todo.append(full.replace(".", os.sep) + ".v")
     return sorted(seen)
 
 
